@@ -794,6 +794,9 @@ class Engine:
                 key = self.methods_of[(cls, attr)]
                 m, n = self.repo.lookup(key)
                 return mk_py(FuncRef(key, node=n, mod=m, bound_self=base, cls=cls))
+            if cls not in self.reg.class_of and attr not in self.reg.fields.get(cls, {}):
+                # an object of a modelled external class (xarray.Dataset): anything but its modelled fields is a library method
+                return mk_py(ExtRef("." + attr, recv=base))
             return self.heap_get(fr.st, base, attr)
         if base.k == "py":
             p = base.t
@@ -848,6 +851,15 @@ class Engine:
         if base.k == "sdict":
             if idx.k == "str" and z3.is_string_value(idx.t) and idx.t.as_string() in base.t:
                 return base.t[idx.t.as_string()]
+            if idx.k in ("str", "V") and base.t:
+                ks = idx.t if idx.k == "str" else T.sval(idx.t)
+                keys = list(base.t)
+                if self.entails(fr.st, z3.Or(*[ks == z3.StringVal(k_) for k_ in keys]) if idx.k == "str"
+                                else z3.And(T.is_VStr(idx.t), z3.Or(*[ks == z3.StringVal(k_) for k_ in keys]))):
+                    r = base.t[keys[-1]]
+                    for k_ in reversed(keys[:-1]):
+                        r = self.ite(ks == z3.StringVal(k_), base.t[k_], r, fr)
+                    return r
             raise Unsupported("dynamic key into literal dict")
         if base.k == "tuple":
             i = self.as_int(idx, fr)
@@ -1175,7 +1187,10 @@ class Engine:
             if nm == "old" and fr.spec:
                 if fr.old is None:
                     return self.ev(node.args[0], fr)
-                return self.ev(node.args[0], fr.sub(st=fr.old, old=None))
+                sn = fr.old.fork()
+                for k_, v_ in fr.st.env.items():
+                    sn.env.setdefault(k_, v_)      # bound variables / names introduced since entry stay visible
+                return self.ev(node.args[0], fr.sub(st=sn, old=None))
             if nm == "snap" and fr.spec:
                 label = node.args[0].value
                 sn = fr.st.fork()
